@@ -346,7 +346,7 @@ class UnitCtx:
         self.unit, self.src = unit, src
         self.consts = {}          # rust name -> (lean text of the def, type)
         self.const_order = []
-        self.fns = {f["name"].split("::")[-1]: f for f in unit["functions"]}
+        self.fns = {f["name"].split("::")[-1]: f for f in unit.get("extern_fns", []) + unit["functions"]}
 
     def const_ref(self, name, node):
         if name not in self.consts:
@@ -1137,7 +1137,7 @@ def translate_unit(src, unit, fail):
                  "longer be regenerated)" % (where, what, u.msg, f.get("theorem", "")))
         out.append((f, line, body, list(helpers), main))
     name = unit["name"]
-    txt = ["import RbV.Basic.RsSemGenprob",
+    txt = ["import RbV.Basic.RsSemGenprob" + "".join("\nimport " + m for m in unit.get("imports", [])),
            "/-! GENERATED by tools/rs2lean_genprob.py (tools/gen_tables.py, %s) — do not edit." % unit["props"],
            "Translation of the *text* of the following functions of `%s` (comments blanked) into Lean, regenerated from" % rel,
            "the source tree on every `./check`.  `f64` is abstract: the definitions are generic in `F` and `o : Rs.F64Ops F`",
@@ -1220,30 +1220,41 @@ unit(name="SrcProbs", props="property C15", file="src/stats/probs/mod.rs", diale
               # the `ScanIter` is read as the list of the items it yields when consumed to its end; `I` = a vector
               params=[("probs", "Vec<LogProb>")], ret="Vec<LogProb>", pure=True,
               theorem="RbV.Thm.GenSrcProbs.ln_cumsum_exp_eq_scan"),
+         conv("LogProb", "Prob", "prob_of_logprob"), conv("PHREDProb", "Prob", "prob_of_phred"),
+         conv("Prob", "LogProb", "logprob_of_prob"), conv("PHREDProb", "LogProb", "logprob_of_phred"),
+         conv("Prob", "PHREDProb", "phred_of_prob"), conv("LogProb", "PHREDProb", "phred_of_logprob"),
+     ])
+
+# the integration helpers are a unit of their own (they call `ln_sum_exp` / `ln_add_exp` of `Gen/SrcProbs.lean`): a rewrite of
+# the helpers that leaves the subset does not take the theorems about the arithmetic core with it, and vice versa
+unit(name="SrcProbsQuad", props="property C15", file="src/stats/probs/mod.rs", dialect="prob",
+     imports=["RbV.Gen.SrcProbs"],
+     extern_fns=[dict(name="LogProb::ln_sum_exp", lean="RbV.Gen.SrcProbs.ln_sum_exp", params=[("probs", "&[LogProb]")],
+                      ret="LogProb"),
+                 dict(name="LogProb::ln_add_exp", lean="RbV.Gen.SrcProbs.ln_add_exp",
+                      params=[("self", "LogProb"), ("other", "LogProb")], ret="LogProb", pure=True)],
+     functions=[
          dict(name="LogProb::ln_trapezoidal_integrate_grid_exp", lean="ln_trapezoidal_integrate_grid_exp",
               header="pub fn ln_trapezoidal_integrate_grid_exp<T, D>(mut density: D, grid: &[T]) -> LogProb where T: Copy + "
                      "Add<Output = T> + Sub<Output = T> + Div<Output = T> + Mul<Output = T> + Float, D: FnMut(usize, T) -> LogProb, "
                      "f64: From<T>,",
               # T = f64; the `FnMut` density is read as a function of (index, abscissa)
               params=[("density", "Fn(usize, T) -> LogProb"), ("grid", "&[T]")], ret="LogProb",
-              theorem="RbV.Thm.GenSrcProbs.grid_eq_model"),
+              theorem="RbV.Thm.GenSrcProbsQuad.grid_error"),
          dict(name="LogProb::ln_simpsons_integrate_exp", lean="ln_simpsons_integrate_exp",
               header="pub fn ln_simpsons_integrate_exp<T, D>(mut density: D, a: T, b: T, n: usize) -> LogProb where T: Copy + "
                      "Add<Output = T> + Sub<Output = T> + Div<Output = T> + Mul<Output = T> + Float, D: FnMut(usize, T) -> LogProb, "
                      "f64: From<T>,",
               params=[("density", "Fn(usize, T) -> LogProb"), ("a", "T"), ("b", "T"), ("n", "usize")], ret="LogProb",
               abstract_fns={"linspace": dict(lean="linspace", sig="F → F → Nat → List F", params=[F, F, NAT], ret=("list", F))},
-              theorem="RbV.Thm.GenSrcProbs.simpson_eq_model"),
+              theorem="RbV.Thm.GenSrcProbsQuad.simpson_error"),
          dict(name="LogProb::ln_trapezoidal_integrate_exp", lean="ln_trapezoidal_integrate_exp",
               header="pub fn ln_trapezoidal_integrate_exp<T, D>(mut density: D, a: T, b: T, n: usize) -> LogProb where T: Copy + "
                      "Add<Output = T> + Sub<Output = T> + Div<Output = T> + Mul<Output = T> + Float, D: FnMut(usize, T) -> LogProb, "
                      "f64: From<T>,",
               params=[("density", "Fn(usize, T) -> LogProb"), ("a", "T"), ("b", "T"), ("n", "usize")], ret="LogProb",
               abstract_fns={"linspace": dict(lean="linspace", sig="F → F → Nat → List F", params=[F, F, NAT], ret=("list", F))},
-              theorem="RbV.Thm.GenSrcProbs.trapezoid_eq_model"),
-         conv("LogProb", "Prob", "prob_of_logprob"), conv("PHREDProb", "Prob", "prob_of_phred"),
-         conv("Prob", "LogProb", "logprob_of_prob"), conv("PHREDProb", "LogProb", "logprob_of_phred"),
-         conv("Prob", "PHREDProb", "phred_of_prob"), conv("LogProb", "PHREDProb", "phred_of_logprob"),
+              theorem="RbV.Thm.GenSrcProbsQuad.trapezoid_error")
      ])
 
 unit(name="SrcFastExp", props="property C15", file="src/utils/fastexp.rs", dialect="prob",
